@@ -5,7 +5,7 @@
    extent, same length, same bytes, same container); whatever the types are, the assertion that
    guards a pointer transmute fails (an ordinary panic) before the transmute could misbehave. *)
 From Coq Require Import NArith List Bool String Lia.
-From BM Require Import Base.Outcome Base.Prims Base.Own Base.Layout.
+From BM Require Import Base.Outcome Base.Prims Base.Own Base.Layout Base.Tactics.
 From BM.Gen Require Transparent Alloc.
 Import ListNotations.
 Open Scope bool_scope.
@@ -35,22 +35,22 @@ Hypothesis HC : tw_contract W I.
 
 Theorem wrap_ref_id p : valid_ref I p -> Gen.Transparent.wrap_ref ENV W I u u p = Ret p.
 Proof.
-  intros Hv. unfold Gen.Transparent.wrap_ref, transmute_ptr_m. rewrite ptr_size_eq. cbn [assert_m bind].
+  intros Hv. unfold Gen.Transparent.wrap_ref, transmute_ptr_m. rewrite ptr_size_eq. cbn [negb assert_m bind].
   apply deref_valid. eapply valid_ref_transport; eassumption.
 Qed.
 Theorem wrap_mut_id p : valid_ref I p -> Gen.Transparent.wrap_mut ENV W I u u p = Ret p.
 Proof.
-  intros Hv. unfold Gen.Transparent.wrap_mut, transmute_ptr_m. rewrite ptr_size_eq. cbn [assert_m bind].
+  intros Hv. unfold Gen.Transparent.wrap_mut, transmute_ptr_m. rewrite ptr_size_eq. cbn [negb assert_m bind].
   apply deref_valid. eapply valid_ref_transport; eassumption.
 Qed.
 Theorem peel_ref_id p : valid_ref W p -> Gen.Transparent.peel_ref ENV W I u u p = Ret p.
 Proof.
-  intros Hv. unfold Gen.Transparent.peel_ref, transmute_ptr_m. rewrite ptr_size_eq. cbn [assert_m bind].
+  intros Hv. unfold Gen.Transparent.peel_ref, transmute_ptr_m. rewrite ptr_size_eq. cbn [negb assert_m bind].
   apply deref_valid. destruct HC as [Hs Ha]. unfold valid_ref in *. rewrite Hs, Ha. exact Hv.
 Qed.
 Theorem peel_mut_id p : valid_ref W p -> Gen.Transparent.peel_mut ENV W I u u p = Ret p.
 Proof.
-  intros Hv. unfold Gen.Transparent.peel_mut, transmute_ptr_m. rewrite ptr_size_eq. cbn [assert_m bind].
+  intros Hv. unfold Gen.Transparent.peel_mut, transmute_ptr_m. rewrite ptr_size_eq. cbn [negb assert_m bind].
   apply deref_valid. destruct HC as [Hs Ha]. unfold valid_ref in *. rewrite Hs, Ha. exact Hv.
 Qed.
 
@@ -81,22 +81,22 @@ Proof. destruct HC as [Hs Ha]. unfold valid_slice. rewrite Hs, Ha. exact (fun H 
 Theorem wrap_slice_id s : valid_slice I s -> Gen.Transparent.wrap_slice ENV W I s = Ret s.
 Proof.
   intros Hv. unfold Gen.Transparent.wrap_slice. destruct HC as [Hs Ha]. rewrite Hs, Ha, !N.eqb_refl.
-  cbn [assert_m bind]. apply from_raw_valid. apply valid_slice_transport. exact Hv.
+  cbn [negb assert_m bind]. apply from_raw_valid. apply valid_slice_transport. exact Hv.
 Qed.
 Theorem wrap_slice_mut_id s : valid_slice I s -> Gen.Transparent.wrap_slice_mut ENV W I s = Ret s.
 Proof.
   intros Hv. unfold Gen.Transparent.wrap_slice_mut. destruct HC as [Hs Ha]. rewrite Hs, Ha, !N.eqb_refl.
-  cbn [assert_m bind]. apply from_raw_valid. apply valid_slice_transport. exact Hv.
+  cbn [negb assert_m bind]. apply from_raw_valid. apply valid_slice_transport. exact Hv.
 Qed.
 Theorem peel_slice_id s : valid_slice W s -> Gen.Transparent.peel_slice ENV W I s = Ret s.
 Proof.
   intros Hv. unfold Gen.Transparent.peel_slice. destruct HC as [Hs Ha]. rewrite Hs, Ha, !N.eqb_refl.
-  cbn [assert_m bind]. apply from_raw_valid. apply valid_slice_transport_back. exact Hv.
+  cbn [negb assert_m bind]. apply from_raw_valid. apply valid_slice_transport_back. exact Hv.
 Qed.
 Theorem peel_slice_mut_id s : valid_slice W s -> Gen.Transparent.peel_slice_mut ENV W I s = Ret s.
 Proof.
   intros Hv. unfold Gen.Transparent.peel_slice_mut. destruct HC as [Hs Ha]. rewrite Hs, Ha, !N.eqb_refl.
-  cbn [assert_m bind]. apply from_raw_valid. apply valid_slice_transport_back. exact Hv.
+  cbn [negb assert_m bind]. apply from_raw_valid. apply valid_slice_transport_back. exact Hv.
 Qed.
 
 (* by value: the same bytes, produced once (the source is inside a ManuallyDrop: it is not dropped) *)
@@ -106,12 +106,12 @@ Proof. intros Hl. unfold transmute_copy. rewrite <- Hl, N.leb_refl, Nat2N.id, fi
 Theorem wrap_id v : N.of_nat (List.length v) = sz I -> Gen.Transparent.wrap ENV W I v = Ret v.
 Proof.
   intros Hl. unfold Gen.Transparent.wrap. destruct HC as [Hs Ha]. rewrite Hs, Ha, !N.eqb_refl.
-  cbn [assert_m bind]. apply transmute_all. rewrite <- Hs. exact Hl.
+  cbn [negb assert_m bind]. apply transmute_all. rewrite <- Hs. exact Hl.
 Qed.
 Theorem peel_id v : N.of_nat (List.length v) = sz W -> Gen.Transparent.peel ENV W I v = Ret v.
 Proof.
   intros Hl. unfold Gen.Transparent.peel. destruct HC as [Hs Ha]. rewrite Hs, Ha, !N.eqb_refl.
-  cbn [assert_m bind]. apply transmute_all. rewrite Hs. exact Hl.
+  cbn [negb assert_m bind]. apply transmute_all. rewrite Hs. exact Hl.
 Qed.
 
 (* containers: the same container — same block, length, capacity — back *)
@@ -151,9 +151,8 @@ Proof. intros H. destruct uW, uI; try congruence; repeat split; reflexivity. Qed
 (* the slice and by-value forms assert size and alignment: with a mismatch they panic, they never
    build a slice or a value of the wrong extent *)
 Ltac guard_tac :=
-  unfold assert_m; repeat (cbn [bind]; match goal with |- context [if ?b then _ else _] => destruct b eqn:? end);
-  cbn [bind]; try reflexivity; exfalso;
-  repeat match goal with H : (_ =? _) = true |- _ => apply N.eqb_eq in H end;
+  unfold assert_m; repeat (cbn [bind negb]; match goal with |- context [if ?b then _ else _] => destruct b eqn:? end);
+  cbn [bind negb]; try reflexivity; exfalso; b2p;
   match goal with H : _ \/ _ |- _ => destruct H; congruence end.
 
 Theorem slice_guard_panics ENV W I s : (sz I <> sz W \/ al I <> al W) ->
